@@ -34,7 +34,7 @@ class Interp:
     def place(self, pl):
         v = self.vals.get(pl['local'])
         for p in pl['proj']:
-            if p['k'] == 'deref':
+            if p['k'] in ('deref', 'downcast'):
                 continue
             if p['k'] == 'field' and isinstance(v, tuple) and v and v[0] == 'tuple':
                 v = v[1][p['i']]
@@ -201,6 +201,116 @@ class Interp:
             else:
                 raise Unknown('terminator ' + k)
         raise Unknown('no return reached')
+
+
+class LoopInterp(Interp):
+    """One iteration of a `for (row, bias) in rows { .. }` loop that pushes the rows it keeps: the outcome of an iteration under an abstract
+    (row, bias) is 'keep' (the item, or its two components, is pushed onto `vec`), 'drop' (the loop goes on without a push) or
+    ('return', what) (the function returns / a value is produced: e.g. the canonical empty polytope)."""
+
+    def __init__(self, facts, body, item_local, allzero, sign, header, vec_expr, resolver):
+        Interp.__init__(self, facts, body, {item_local: ('some', ('tuple', [ROW, BIAS]))}, allzero, sign)
+        self.header = header
+        self.vec = vec_expr
+        self.R = resolver
+        self.pushed = 0
+        self.ret = None
+
+    def call(self, t):
+        c = Callee(t['func'])
+        if c.name == 'push':
+            args = [self.operand(a) for a in t['args'][1:]]
+            v = args[0] if args else None
+            if v == ('tuple', [ROW, BIAS]):
+                self.pushed += 1
+                return ('unit',)
+            raise Unknown('push of something other than the loop item')
+        if c.short in ('AffFuncBase::empty', 'AffFuncBase::unbounded'):
+            return ('canonical', c.name)
+        return Interp.call(self, t)
+
+    def run_iteration(self, start):
+        b = self.b
+        bb = start
+        for _ in range(400):
+            if bb == self.header:
+                return 'keep' if self.pushed == 1 else ('drop' if self.pushed == 0 else 'dup')
+            bl = b.blocks[bb]
+            for st in bl['stmts']:
+                if st['k'] == 'assign' and not st['place']['proj']:
+                    try:
+                        self.vals[st['place']['local']] = self.rvalue(st['rv'])
+                    except Unknown:
+                        self.vals.pop(st['place']['local'], None)
+            t = bl['term']
+            k = t['k']
+            if k == 'return':
+                return ('return', self.vals.get(0))
+            if k in ('goto', 'drop'):
+                bb = t['target']
+            elif k == 'call':
+                if t['target'] is None:
+                    raise Unknown('diverges')
+                if not t['dest']['proj']:
+                    try:
+                        self.vals[t['dest']['local']] = self.call(t)
+                    except Unknown:
+                        if Callee(t['func']).name == 'push':
+                            raise
+                        self.vals.pop(t['dest']['local'], None)
+                bb = t['target']
+            elif k == 'switch':
+                v = self.operand(t['discr'])
+                if isinstance(v, bool):
+                    v = int(v)
+                if not isinstance(v, int):
+                    raise Unknown('branch on %r' % (v,))
+                nxt = t['otherwise']
+                for val, tgt in t['targets']:
+                    if val == v:
+                        nxt = tgt
+                bb = nxt
+            elif k == 'assert':
+                bb = t['target']
+            else:
+                raise Unknown('terminator ' + k)
+        raise Unknown('iteration does not end')
+
+
+def loop_truth_table(facts, body, resolver, vec_expr):
+    """{(allzero, sign): 'keep' | 'drop' | ('return', value)} for the loop of `body` that pushes onto vec_expr the items of a zipped
+    (row, bias) sweep; raises Unknown if there is no such single loop."""
+    from .mir import literals
+    pushes = [bb for bb, t in body.calls() if Callee(t['func']).name == 'push' and resolver.call_args(bb)[0] == vec_expr]
+    if not pushes:
+        raise Unknown('no push onto the row list')
+    cfg = body.cfg()
+    hdrs = [h for h in cfg.loop_headers() if isinstance(h, int) and all(p in cfg.loop_of(h) for p in pushes)]
+    if len(hdrs) != 1:
+        raise Unknown('the pushes are not in one loop')
+    h = hdrs[0]
+    # the loop item: destination of the `next` call in the header, and the block entered on Some
+    t = body.blocks[h]['term']
+    if t['k'] != 'call' or Callee(t['func']).name != 'next' or t['dest']['proj']:
+        raise Unknown('loop header is not an iterator step')
+    item_local = t['dest']['local']
+    sw = t['target']
+    for _ in range(4):
+        tt = body.blocks[sw]['term']
+        if tt['k'] == 'switch':
+            break
+        sw = tt.get('target')
+        if sw is None:
+            raise Unknown('no match on the loop item')
+    some = [tgt for v, tgt in body.blocks[sw]['term']['targets'] if v == 1]
+    if len(some) != 1:
+        raise Unknown('no Some arm')
+    out = {}
+    for allzero in (True, False):
+        for sign in (-1, 0, 1):
+            it = LoopInterp(facts, body, item_local, allzero, sign, h, vec_expr, resolver)
+            out[(allzero, sign)] = it.run_iteration(some[0])
+    return out
 
 
 def truth_table(facts, closure_body, pair_arg_index=None, pair_is_ref=True):
